@@ -2,6 +2,7 @@
 from checks import syntaxtl2_gen as G
 from vlib.core import hx
 
+LEVEL = "exploration"
 MODULES = ["TLVerif.Props.C22"]
 THEOREMS = ["TLVerif.Props.C22." + t for t in [
     "canonical_print_core_only", "print_visible_only", "canonical_idempotent_of_roundtrip",
